@@ -185,17 +185,29 @@ func runTracedWith(fp *lua.FunctionProto, root *P, budget int, setup func(L *lua
 	if budget > 100000 {
 		limit = 120 * time.Second
 	}
-	select {
-	case res = <-done:
-		res.Insts = tr.n
-		res.Over = tr.over
-		L.Close()
-	case <-time.After(limit):
-		hangs++
-		// the tracer is still being written by the abandoned goroutine: hand back an empty one
-		res = runResult{Panicked: fmt.Sprintf("hang: no result after %v under a budget of %d instructions", limit, budget), Insts: budget}
-		tr = newTracer(L, root, budget)
+	// a run is hung when a whole watchdog period passes without a single instruction being fetched
+	// (on the shared machine a healthy run can be starved for a long time: progress, however slow,
+	// re-arms the watchdog, at most 8 times)
+	seen := -1
+	for round := 0; ; round++ {
+		select {
+		case res = <-done:
+			res.Insts = tr.n
+			res.Over = tr.over
+			L.Close()
+			return
+		case <-time.After(limit):
+		}
+		if now := tr.n; now != seen && round < 8 {
+			seen = now
+			continue
+		}
+		break
 	}
+	hangs++
+	// the tracer is still being written by the abandoned goroutine: hand back an empty one
+	res = runResult{Panicked: fmt.Sprintf("hang: no instruction fetched for %v under a budget of %d instructions", limit, budget), Insts: budget}
+	tr = newTracer(L, root, budget)
 	return
 }
 
